@@ -113,42 +113,72 @@ def run_ir_snippet(chain, node, cases):
     return out
 
 
-def legacy_template_differential(ctx, templates, gen_compiled):
-    """exported legacy templates: real back end on EVM  vs  Coq leval  vs  Coq arith_spec, on the boundary grid.
+def run_venom_snippet(chain, tmpl, cases):
+    """Print the exported Venom template with the REAL printer, wrap it in a function reading x, y from calldata,
+    parse it with the real parser, run the -O none pipeline + venom back end, execute on pyrevm."""
+    from vyper.compiler.settings import OptimizationLevel, Settings, VenomOptimizationFlags, anchor_settings
+    from vyper.evm.assembler.core import assembly_to_evm
+    from vyper.venom import generate_assembly_experimental, run_passes_on
+    from vyper.venom.parser import parse_venom
+    ins, r = tmpl
+    body = "\n".join("  " + str(i).rstrip() for i in ins)
+    text = f"function main {{\nmain:\n  %1 = calldataload 0\n  %2 = calldataload 32\n{body}\n  mstore 0, {r}\n  return 0, 32\n}}\n"
+    with anchor_settings(Settings(optimize=OptimizationLevel.NONE)):
+        vctx = parse_venom(text)
+        run_passes_on(vctx, VenomOptimizationFlags(level=OptimizationLevel.NONE), disable_mem_checks=True)
+        asm = generate_assembly_experimental(vctx, OptimizationLevel.NONE)
+        code, _ = assembly_to_evm(asm)
+    addr = chain.set_code(None, code)
+    out = []
+    for x, y in cases:
+        res = chain.call(addr, word(x) + word(y))
+        out.append(int.from_bytes(res.out, "big") if res.ok and len(res.out) == 32 else -1)
+    return out
+
+
+def template_differential(ctx, templates, gen_compiled, kind, only_types=None):
+    """exported templates: real back end on EVM  vs  Coq evaluator  vs  Coq arith_spec, on the boundary grid.
     Doubles as the Search for a broken tie/proof (evaluates whatever the generators emit NOW)."""
-    rnd = ctx.rng("lirgrid")
+    rnd = ctx.rng(kind + "grid")
     size = 11 if ctx.tier == "quick" else None
+    idx = [j for j, (op, ty, n) in enumerate(templates) if only_types is None or ty in only_types]
     grids = {}
-    for op, ty, n in templates:
+    for j in idx:
+        ty = templates[j][1]
         if ty not in grids:
             grids[ty] = type_grid(ty, rnd, size)
     tys = list(grids)
-    imports = COQ_PRELUDE + ("From Verif Require Import C03.GenLegacy.\n" if gen_compiled else "")
+    table, ev = ("legacy_templates", "leval (env2 (fst p) (snd p)) t") if kind == "legacy" else \
+        ("venom_templates", "vrun [(\"%2\"%string, enc (snd p)); (\"%1\"%string, enc (fst p))] t")
+    gen = "GenLegacy" if kind == "legacy" else "GenVenom"
+    imports = COQ_PRELUDE + (f"From Verif Require Import C03.{gen}.\n" if gen_compiled else "")
     for i, ty in enumerate(tys):
         imports += f"Definition G{i} := {zlist(grids[ty])}.\n"
     if gen_compiled:
         imports += ("Definition lev_row (n : nat) (G : list Z) (unary : bool) : list Z :=\n"
-                    "  match nth_error legacy_templates n with\n"
-                    "  | Some (_, _, t) => map (fun p => oc (leval (env2 (fst p) (snd p)) t)) "
+                    f"  match nth_error {table} n with\n"
+                    f"  | Some (_, _, t) => map (fun p => oc ({ev})) "
                     "(if unary then map (fun x => (x, 0)) G else list_prod G G)\n  | None => [] end.\n")
     exprs = []
-    for j, (op, ty, n) in enumerate(templates):
+    for j in idx:
+        op, ty, n = templates[j]
         un = "true" if op == "AUSub" else "false"
         gi = tys.index(ty)
         e = f"spec_row {X.nty(*ty)} {op} G{gi} {un}"
         if gen_compiled:
             e = f"({e}) ++ (lev_row {j} G{gi} {un})"
         exprs.append(e)
-    outs = coqrun.eval_zlists(imports, exprs, "c03lir", shard=60)
+    outs = coqrun.eval_zlists(imports, exprs, "c03" + kind, shard=60)
     chain = Chain("cancun")
     n_eval = 0
     bad_model, failing = [], []
-    for (op, ty, n), o in zip(templates, outs):
+    for j, o in zip(idx, outs):
+        op, ty, n = templates[j]
         cs = pairs(grids[ty], op == "AUSub")
         spec = o[:len(cs)]
         lev = o[len(cs):] if gen_compiled else None
         assert len(spec) == len(cs) and (lev is None or len(lev) == len(cs)), (op, ty, len(o), len(cs))
-        got = run_ir_snippet(chain, n, cs)
+        got = run_ir_snippet(chain, n, cs) if kind == "legacy" else run_venom_snippet(chain, n, cs)
         n_eval += len(cs)
         for i, c in enumerate(cs):
             if got[i] != spec[i]:
@@ -159,7 +189,7 @@ def legacy_template_differential(ctx, templates, gen_compiled):
                 if lev[i] != got[i]:
                     bad_model.append((op, ty, c, lev[i], got[i]))
                     break
-    ctx.corr["legacy_template_cases"] = n_eval
+    ctx.corr[kind + "_template_cases"] = n_eval
     return n_eval, failing, bad_model
 
 
@@ -308,27 +338,33 @@ def run(ctx):
     # ---- correspondence / search
     found = False
     total = 0
-    if ltempl and b0["ok"]:
-        gen_compiled = (COQ / "C03" / "GenLegacy.vo").exists() and "GenLegacy" not in str(bl.get("file", ""))
-        n, failing, bad_model = legacy_template_differential(ctx, ltempl, gen_compiled)
+    all_tys = [(k, s, d) for k, s, d, _ in X.num_types()]
+    tys = choose_types(ctx, all_tys)
+    for kind, templ, b, gen in (("legacy", ltempl, bl, "GenLegacy"), ("venom", vtempl, bv, "GenVenom")):
+        if not templ or not b0["ok"]:
+            continue
+        gen_compiled = (COQ / "C03" / f"{gen}.vo").exists() and gen not in str(b.get("file", ""))
+        # quick tier: a seeded subset of types, unless a proof/tie is broken (then Search over the whole family)
+        only = set(tys) if (ctx.tier == "quick" and b["ok"]) else None
+        n, failing, bad_model = template_differential(ctx, templ, gen_compiled, kind, only)
         total += n
         for op, ty, c, e, g, node in failing[:5]:
             found = True
+            tstr = str(node) if kind == "legacy" else "; ".join(str(i).strip() for i in node[0]) + f" -> {node[1]}"
             ctx.violation(
-                "failing-input", f"legacy {OPSYM[op]} template for {tyname(ty)} is not exact-or-revert",
-                {"generator": f"vyper.codegen.arithmetic / expr.py, op {op}, type {tyname(ty)}, operands in IR variables x, y",
-                 "template": str(node), "x": str(c[0]), "y": str(c[1]),
+                "failing-input", f"{kind} {OPSYM[op]} template for {tyname(ty)} is not exact-or-revert",
+                {"generator": f"{'vyper.codegen.arithmetic / expr.py' if kind == 'legacy' else 'vyper.codegen_venom.arithmetic'}"
+                              f", op {op}, type {tyname(ty)}, operands in variables x, y",
+                 "template": tstr, "x": str(c[0]), "y": str(c[1]),
                  "expected": "revert" if e == -1 else hex(e), "observed_on_evm": "revert" if g == -1 else hex(g),
-                 "how": "template compiled by vyper.ir.compile_ir + assembler, executed on pyrevm"},
-                key=f"legacy-template:{op}:{tyname(ty)}")
+                 "how": "template compiled by the real back end (compile_ir / venom -O none) + assembler, executed on pyrevm"},
+                key=f"{kind}-template:{op}:{tyname(ty)}")
         for op, ty, c, l, g in bad_model[:5]:
             if not found:
-                ctx.violation("correspondence-broken", "Coq evaluator leval disagrees with compile_ir+EVM on an exported template",
-                              {"op": op, "type": tyname(ty), "x": str(c[0]), "y": str(c[1]), "leval": str(l), "evm": str(g)})
+                ctx.violation("correspondence-broken", f"Coq evaluator disagrees with the real back end + EVM on an exported {kind} template",
+                              {"op": op, "type": tyname(ty), "x": str(c[0]), "y": str(c[1]), "coq": str(l), "evm": str(g)})
     ctx.log(f"template differential done {time.time()-t0:.0f}s")
 
-    all_tys = [(k, s, d) for k, s, d, _ in X.num_types()]
-    tys = choose_types(ctx, all_tys)
     cfgs = core_configs() if ctx.tier == "quick" else configs("thorough")
     n, gfail = glue_differential(ctx, tys, cfgs, 9 if ctx.tier == "quick" else 16)
     total += n
